@@ -24,4 +24,13 @@ STATUS = {
               "relation within the documented machine, terminal orders never written. Exact census rules for end_time/arr_time pairing with "
               "the clock, immutability of side/trader/id/start_vol, dense ids, and empty effect of the guard-failing slices (redundant requests)."),
         note=TRUST + "Assumes ids refer to existing orders; Filled<=>vol==0 is itself checked (filled-iff-zero)."),
+    "C02": dict(
+        claimed=True,
+        technique="lock-step operand rules on the side structure + typestate accounting (pending-volume discipline) + sibling mirror of bid/ask wrappers + origin checks of views/level walk + must-pass-through (never crossed) + panic-site census with discharge table",
+        text=("Decides the structural premises from which 'views == recomputation from active orders' follows: the three side structures move "
+              "together by the same operand; every volume change of a filed order is mirrored at its own level before the API returns; "
+              "bid wrappers differ from ask wrappers only by the MAX-price inversion; level walks step touch -/+ i*tick; every Level1/Level2 "
+              "field is fed from the same-side getter; each live insertion is preceded by the trading test + opposite-side matching loop; no "
+              "&self query can abort (panic census, discharge table). Numeric equality for particular states is not computed."),
+        note=TRUST + "Assumes valid histories (resting volume < 2^32, LEVELS*tick < 2^32, valid ids)."),
 }
